@@ -21,11 +21,11 @@ PID = "C06"
 
 OPS = {"mul2", "mul3", "add2", "add3", "pow", "abs", "min2", "max2", "exp"}
 CFG = {
-    "quick": dict(MaxLen=5, LeafNames={"n0", "n2", "nh", "m", "s", "q0m", "q2", "xs", "ts", "ks", "dft"},
-                  OpNames={"mul2", "add2", "add3", "pow", "abs", "min2", "exp"}),
+    "quick": dict(MaxLen=5, LeafNames={"n0", "n2", "nh", "m", "s", "q0m", "q2", "xs", "ts", "ks", "dft", "dLq"},
+                  OpNames={"mul2", "add2", "add3", "pow", "abs", "min2", "exp", "gapp"}),
     "thorough": dict(MaxLen=5, LeafNames={"n0", "n1", "n2", "n3", "nm1", "nh", "oo", "nan", "m", "km", "s", "kg", "q2m", "q0",
-                                          "q0m", "qoos", "q2", "xs", "ys", "ts", "ks", "ps", "ft", "dft", "d2ft", "dgxt"},
-                     OpNames=OPS),
+                                          "q0m", "qoos", "q2", "xs", "ys", "ts", "ks", "ps", "ft", "dft", "d2ft", "dgxt", "dLq"},
+                     OpNames=OPS | {"gapp"}),
 }
 DEEP = {
     "quick": [dict(MaxLen=7, LeafNames={"n2", "xs", "ts", "q0m"}, OpNames={"mul2", "add2", "pow"})],
@@ -38,6 +38,7 @@ INVARIANTS = ["TypeOK", "CommutingDiagram", "InferRefusesLess"]
 _L = None      # leaves
 _ASSIGN = None  # atom -> rational value (for value equality)
 _QSUB = None   # atom -> non-zero quantity of the declared dimension (for the diagram)
+_GFUN = None   # the declared function G (energy) of the "gapp" node
 
 
 def _init():
@@ -57,23 +58,28 @@ def _init():
     dft = sp.Derivative(ft, t)
     d2ft = sp.Derivative(ft, (t, 2))
     dgxt = sp.Derivative(g(x, t), x, t)
+    lagr = Function("L", [ft, t], units.energy)
+    dlq = sp.Derivative(lagr(ft, t), ft)
+    gfun = Function("G", None, units.energy)
     leaves.update({
         "q2": Quantity(2), "q0m": Quantity(0, dimension=units.length), "qoos": Quantity(sp.oo, dimension=units.time),
-        "xs": x, "ys": y, "ts": t, "ks": k, "ps": p, "ft": ft, "dft": dft, "d2ft": d2ft, "dgxt": dgxt,
+        "xs": x, "ys": y, "ts": t, "ks": k, "ps": p, "ft": ft, "dft": dft, "d2ft": d2ft, "dgxt": dgxt, "dLq": dlq,
     })
+    global _GFUN  # pylint: disable=global-statement
+    _GFUN = gfun
     _L = leaves
     _ASSIGN = {x: sp.Integer(3), y: sp.Integer(5), t: sp.Integer(7), k: sp.Integer(2), p: sp.Integer(4),
-               ft: sp.Integer(11), dft: sp.Integer(13), d2ft: sp.Integer(-2), dgxt: sp.Integer(3)}
+               ft: sp.Integer(11), dft: sp.Integer(13), d2ft: sp.Integer(-2), dgxt: sp.Integer(3), dlq: sp.Integer(19)}
     m, s_, kg = units.meter, units.second, units.kilogram
     _QSUB = {x: Quantity(3 * m), y: Quantity(5 * m), t: Quantity(7 * s_), k: Quantity(2), p: Quantity(4),
              ft: Quantity(11 * m), dft: Quantity(13 * m / s_), d2ft: Quantity(-2 * m / s_**2),
-             dgxt: Quantity(3 * kg / s_)}
+             dgxt: Quantity(3 * kg / s_), dlq: Quantity(19 * units.joule / m)}
 
 
 def _sympy_rewrote(expr) -> bool:
     import sympy as sp
     from sympy.physics.units import Quantity as SymQuantity
-    if expr.atoms(sp.re, sp.im, sp.arg, sp.conjugate, sp.sign):
+    if expr.atoms(sp.re, sp.im, sp.arg, sp.conjugate, sp.sign, sp.log):      # (no generated program contains a logarithm)
         return True
     for p in expr.atoms(sp.Pow):
         if not isinstance(p.exp, SymQuantity) and p.exp.atoms(SymQuantity):
@@ -86,6 +92,8 @@ def _numeric(expr):
     import sympy as sp
     from sympy.physics.units import Quantity as SymQuantity
     rule = dict(_ASSIGN)
+    # every application of the declared function G stands for the number 17 (its argument does not matter)
+    expr = sp.sympify(expr).replace(lambda e: getattr(e, "func", None) == _GFUN, lambda e: sp.Integer(17))
     for q in expr.atoms(SymQuantity):
         dim = qc_common.project_dim(q.dimension)
         if dim is None:
@@ -140,7 +148,8 @@ def replay_one(case):
             continue
         try:
             with time_limit(5):
-                expr = qc_common.build(prog, _L, evaluate=(mode == "evaluated"))
+                expr = qc_common.build(prog, _L, evaluate=(mode == "evaluated"),
+                                       extra_ops={"gapp": lambda args, ev: _GFUN(args[0])})
         except HardTimeout:
             out.append((mode, "outside", "sympy construction timed out"))
             continue
